@@ -125,6 +125,23 @@ CHECKS["C16"] = dict(
     technique="property-based testing (proptest) with order / round-trip oracles and a small exhaustive family",
 )
 
+CHECKS["C15"] = dict(
+    engine="pbt",
+    category="exploration",
+    text="Each value is generated once as a dynamic tree and lowered both to a family of 15 derived message types (every scalar field type, bytes and fixed-size bytes, strings, Option, Vec, nesting to depth 4, a recursive tree, enums with unit / unnamed / named variants, Result) and to an independent wire encoder; oracles: pack_sz equals the bytes written by every pack variant, bytes equal the reference encoding, unpack returns an equal value (floats bitwise); unknown fields of every wire type spliced at field boundaries of any depth do not disturb known fields; arbitrary and structurally mutated bytes never panic and accepted values re-encode stably; every 1..10-byte varint (canonical or not) decodes identically on the fast and the slow path; Tag / FieldNumber / WireType / FieldIterator agree with an independent wire walker. A libFuzzer target (fuzz/c15_decode_any) extends the arbitrary-bytes part in the thorough workflow.",
+    design_ref="DESIGN.md §5 C15",
+    note="The message family is fixed at compile time (derive macro). Merge semantics of duplicated known fields and payloads above ~16 KiB are not exercised.",
+    technique="property-based testing (proptest) with an independent reference encoder, metamorphic unknown-field splicing and differential fast/slow varint decoding",
+)
+CHECKS["C04"] = dict(
+    engine="store-driver",
+    category="exploration",
+    text="Accept half: after every operation of generated histories (rollover ratios 1, 2, 8) an independent parser re-checks every manifest fragment: input == previous output, input == output + discard, discard == sum(removed) - sum(added), fragments chain through their roll-ups, final output == sum of listed digests, and each listed sst's name, stored setsum and setsum recomputed from a full walk agree; every verifier pass must accept or back off. Reject half: one hex digit of one recorded digest (+, -, I, O, D of a non-roll-up transaction) is altered with the line CRC fixed up; ManifestVerifier must reject the fragment and, when the offline verifier processes that fragment on the genuine history, LsmVerifier must reject the tampered copy.",
+    design_ref="DESIGN.md §5 C04",
+    note=STORE_NOTE + " Content-level tampers with consistently re-balanced accounting (a GC output missing a retained entry) are not generated; the GC replay of the verifier is exercised on genuine histories only.",
+    technique="stateful property-based testing with an independent balance checker (accept) and single-digit digest tampering (reject)",
+)
+
 NOT_YET = {
 }
 
